@@ -169,10 +169,14 @@ func (pxy *BaseProxy) HandleTCPWorkConnection(workConn net.Conn, m *msg.StartWor
 		if m.DstAddr == "" {
 			m.DstAddr = "127.0.0.1"
 		}
-		srcAddr, _ := net.ResolveTCPAddr("tcp", net.JoinHostPort(m.SrcAddr, strconv.Itoa(int(m.SrcPort))))
-		dstAddr, _ := net.ResolveTCPAddr("tcp", net.JoinHostPort(m.DstAddr, strconv.Itoa(int(m.DstPort))))
-		connInfo.SrcAddr = srcAddr
-		connInfo.DstAddr = dstAddr
+		// An address that does not resolve must stay an untyped nil: a typed nil *net.TCPAddr stored in
+		// the net.Addr fields passes the type assertions in go-proxyproto and is dereferenced there.
+		if srcAddr, err := net.ResolveTCPAddr("tcp", net.JoinHostPort(m.SrcAddr, strconv.Itoa(int(m.SrcPort)))); err == nil {
+			connInfo.SrcAddr = srcAddr
+		}
+		if dstAddr, err := net.ResolveTCPAddr("tcp", net.JoinHostPort(m.DstAddr, strconv.Itoa(int(m.DstPort)))); err == nil {
+			connInfo.DstAddr = dstAddr
+		}
 	}
 
 	if baseCfg.Transport.ProxyProtocolVersion != "" && m.SrcAddr != "" && m.SrcPort != 0 {
